@@ -25,7 +25,8 @@ from .. import types as T
 from ._h_A import (FactReach, Facts, branch_succ, loop_breaks, nodes_of_stmts, nodes_for, kwarg,
                    is_const, stmts_in, never_returns, inliner, expander, bind_call, call_arg,
                    real_loops, Owners, followed, returns_of, value_at, strip_wrappers, atom_of,
-                   reaching_defs, built_list, values_at)
+                   reaching_defs, built_list, values_at, need, opaque_parts, opaque_calls,
+                   same_or_opaque, opaque_tests, undissolved)
 
 EXPLANATION = (
   "Decides the structural legs of the out-of-order protocol that keeps a formula from ever being "
@@ -221,8 +222,9 @@ def r1_funnel(run, w):
   rf = w.repo.func("engine.Engine._recompute")
   m = bind_call(rc, rf) or {}
   rps = rf.params()
-  ok_args = len(rps) == 3 and len(ps) >= 4 and m.get(rps[1]) is not None and \
-      uex.norm(m[rps[1]]) == ps[1] and m.get(rps[2]) is not None and uex.norm(m[rps[2]]) == ps[3]
+  need(len(rps) == 3 and len(ps) >= 4 and m, "_use_node / _recompute: signature changed")
+  ok_args = same_or_opaque(w, un, m.get(rps[1]), ps[1], "node handed to _recompute") and \
+      same_or_opaque(w, un, m.get(rps[2]), ps[3], "rows handed to _recompute")
   run.ob(R1, un.qualname, "self._recompute(node, row_ids)", "the node and rows being read are the "
          "ones brought up to date", ok_args, fi=un.fi, node=rc)
   shortcuts = dict(_no_dirty_rows_atoms(ps[1]))
@@ -231,6 +233,10 @@ def r1_funnel(run, w):
   seen = fr.run([(cfg.entry.id, {})], stop={rn.id})
   bad = [f for f in seen.get(cfg.exit.id, [])
          if not any(f.get(k) is v for k, v in shortcuts.items())]
+  if bad:
+    ot = opaque_tests(w, un)
+    need(not ot, "_use_node: a path ends without recomputing under a test that cannot be followed "
+         "(`%s`)" % (short(ot[0].stmt.test) if ot else ""))
   run.ob(R1, un.qualname, "every path ends in a shortcut return or self._recompute(...)",
          "a read skips recomputation only while peeking or when the node has no dirty rows",
          not bad, fi=un.fi,
@@ -252,8 +258,12 @@ def r1_funnel(run, w):
   for (n, c) in steps:
     m = bind_call(c, stf) or {}
     ae, rr, nd = m.get("allow_evaluation"), m.get("require_rows"), m.get(stf.params()[1])
-    ok = ae is not None and is_const(fex.expand(ae), False) and nd is not None and \
-        fex.norm(nd) == ps[1] and rr is not None and fex.norm(rr) == ps[2]
+    need(m, "_recompute: cannot match the arguments of `%s`" % short(c))
+    ae_v = fex.expand(ae) if ae is not None else None
+    need(isinstance(ae_v, ast.Constant), "_recompute: allow_evaluation is not a constant in `%s`"
+         % short(c))
+    ok = is_const(ae_v, False) and same_or_opaque(w, fn, nd, ps[1], "node of the nested visit") \
+        and same_or_opaque(w, fn, rr, ps[2], "rows of the nested visit")
     if ok:
       good_steps.add(n.id)
     run.ob(R1, fn.qualname, "self._recompute_step(node, allow_evaluation=False, require_rows=row_ids)",
@@ -262,6 +272,10 @@ def r1_funnel(run, w):
   fr = Facts(cfg, {flag}, ex=fex)
   seen = fr.run([(cfg.entry.id, {flag: True})], stop=good_steps)
   ok = cfg.exit.id not in seen and not ({n.id for (n, c) in loops} & set(seen))
+  if not ok and good_steps:
+    ot = opaque_tests(w, fn)
+    need(not ot, "_recompute: a test that cannot be followed (`%s`) decides which visit is made"
+         % (short(ot[0].stmt.test) if ot else ""))
   run.ob(R1, fn.qualname, "if self._in_update_loop: self._recompute_step(..., allow_evaluation=False)",
          "inside an update loop every nested read goes through the non-evaluating visit (and never "
          "starts a nested loop)", ok, fi=fn.fi,
@@ -276,7 +290,10 @@ def r1_funnel(run, w):
     a = fex.expand(a) if a is not None else None
     wi = work_item(w, fex.expand(a.elts[0])) if isinstance(a, (ast.List, ast.Tuple)) and \
         len(a.elts) == 1 else None
-    ok = wi is not None and fex.norm(wi["node"]) == ps[1] and fex.norm(wi["row_ids"]) == ps[2]
+    need(wi is not None, "_recompute: cannot follow the work items the on-demand loop is seeded "
+         "with (`%s`)" % short(a if a is not None else c))
+    ok = same_or_opaque(w, fn, wi["node"], ps[1], "node of the seeded work item") and \
+        same_or_opaque(w, fn, wi["row_ids"], ps[2], "rows of the seeded work item")
     run.ob(R1, fn.qualname, "self._update_loop([WorkItem(node, row_ids, [])], ...)", "the on-demand "
            "loop is seeded with the node and rows being read", ok, fi=fn.fi, node=c)
 
@@ -402,6 +419,10 @@ def r1_scan(run, w, sc):
   arrivals = [f for f in seen.get(head, [])]
   # arrivals at the head by an exceptional edge do not exist (the head is a `for`); all are skips
   bad = [f for f in arrivals if not any(f.get(k) is v for k, v in just.items())]
+  ot = opaque_tests(w, fn, cfg, within=body)
+  if bad:
+    need(not ot, "%s: a row can be passed over under a test that cannot be followed (`%s`)"
+         % (STEP, short(ot[0].stmt.test) if ot else ""))
   run.ob(R1, fn.qualname, "a row is passed over only if not dirty / absent / done",
          "a row is skipped only when it is clean, absent or already done", not bad, fi=fn.fi,
          node=sc.loop, witness=None if not bad else "an iteration can end without evaluating the "
@@ -409,6 +430,9 @@ def r1_scan(run, w, sc):
   # (f) path-sensitive: a required row never leaves the scan by `return`
   seen = fr.run([(s, {sc.flag: True}) for s in starts], stop={head})
   rets = [n for n in seen if cfg.nodes[n].kind == "return" and n in body]
+  if rets:
+    need(not ot, "%s: a return is reachable for a required row under a test that cannot be "
+         "followed (`%s`)" % (STEP, short(ot[0].stmt.test) if ot else ""))
   run.ob(R1, fn.qualname, "no `return` is reachable while the row is required",
          "the scan is abandoned only on rows nobody asked for", not rets, fi=fn.fi,
          node=cfg.nodes[rets[0]].stmt if rets else sc.loop,
@@ -425,6 +449,9 @@ def r1_scan(run, w, sc):
   raises = [n for n in seen if cfg.nodes[n].kind == "raise_stmt" and n in body]
   ok = not (set(seen) & evals) and not back and bool(raises) and \
       not [n for n in seen if cfg.nodes[n].kind == "return" and n in body]
+  if not ok:
+    need(not ot, "%s: what happens to a required row that cannot be evaluated depends on a test "
+         "that cannot be followed (`%s`)" % (STEP, short(ot[0].stmt.test) if ot else ""))
   wit = None
   if set(seen) & evals:
     wit = "the cell is evaluated although allow_evaluation is false"
@@ -450,6 +477,10 @@ def r1_scan(run, w, sc):
   for n in raises:
     exc = cfg.nodes[n].stmt.exc
     vals = values_at(fn, cfg, du, n, exc) if exc is not None else []
+    need(vals, "%s: a bare `raise` in the non-evaluating branch cannot be followed" % STEP)
+    for v in vals:
+      need(is_order_error_ctor(v, sc) or not opaque_parts(w, fn.fi, v),
+           "%s: cannot follow what is raised for a required row (`%s`)" % (STEP, short(v)))
     run.ob(R1, fn.qualname, "raise OrderError(<msg>, node, row)",
            "the OrderError names this node and this row as the dependency",
            bool(vals) and all(is_order_error_ctor(v, sc) for v in vals), fi=fn.fi,
@@ -503,6 +534,10 @@ def r2_one_cell(run, w):
   rz = [n for n in seen if cfg.nodes[n].kind == "raise_stmt" and cfg.nodes[n].stmt.exc is not None
         and ex.norm(cfg.nodes[n].stmt.exc) == CRE and all(f.get(CRE) is True for f in seen[n])]
   ok = not bad and bool(rz)
+  if not ok:
+    und = undissolved(w, fn, cfg, within=set(seen))
+    need(not und, "%s: the code between the user-code call and the return calls `%s`, which "
+         "cannot be followed" % (ONE, short(und[0]) if und else ""))
   run.ob(R2, fn.qualname, "col.method(...) ... if self._cell_required_error: raise ... return result",
          "a formula that swallowed the OrderError (and went on with a stale value) still has its "
          "cell re-ordered instead of its result stored", ok, fi=fn.fi,
@@ -537,6 +572,10 @@ def r2_one_cell(run, w):
   for x in hn:
     first_h |= cfg.normal_succ(x)
   ok = ok and not (cfg.reach(first_h, removed=read_nodes) & (hrets | {cfg.exit.id}))
+  if not ok:
+    und = undissolved(w, fn, cfg, within=hbody)
+    need(not und, "%s: the error branch calls `%s`, which cannot be followed"
+         % (ONE, short(und[0]) if und else ""))
   run.ob(R2, fn.qualname, "except: <pending> = self._cell_required_error ... if <pending>: raise <pending>",
          "when the cell met a not-yet-evaluated dependency, the order error is re-raised; the "
          "user-level error (often caused by the stale read) is never stored instead", ok,
@@ -662,13 +701,28 @@ def r3_reorder(run, w, sc):
   stf = w.repo.func(STEP)
   m = bind_call(lr.scall, stf) or {}
   rr, nd = m.get("require_rows"), m.get(stf.params()[1])
+  need(m, "%s: cannot match the arguments of `%s`" % (LOOP, short(lr.scall)))
+  def is_var_or_opaque(e, var, what):
+    if lr.is_var(e, var):
+      return True
+    need(e is None or not opaque_parts(w, fn.fi, ex.expand(e)),
+         "%s: cannot follow `%s` (%s)" % (LOOP, short(e) if e is not None else "?", what))
+    return False
   run.ob(R3, fn.qualname, "self._recompute_step(<node>, require_rows=<rows>)", "the popped node is "
-         "visited with the popped rows as the required rows", lr.is_var(nd, lr.v_node) and
-         lr.is_var(rr, lr.v_rows), fi=fn.fi, node=lr.scall)
+         "visited with the popped rows as the required rows",
+         is_var_or_opaque(nd, lr.v_node, "node visited") and
+         is_var_or_opaque(rr, lr.v_rows, "rows required"), fi=fn.fi, node=lr.scall)
   pushes = lr.pushes()
   cur = [(n, c, wi) for (n, c, wi) in pushes if wi is not None and lr.is_var(wi["node"], lr.v_node)]
   dep = [(n, c, wi) for (n, c, wi) in pushes if wi is not None and
          ex.norm(wi["node"]) == "%s.node" % ev]
+  for (n_, c_, wi_) in pushes:
+    need(wi_ is not None or c_.func.attr != "append", "%s: cannot follow what the OrderError "
+         "handler pushes (`%s`)" % (LOOP, short(c_)))
+  if not pushes:
+    und = undissolved(w, fn, cfg, within=hbody)
+    need(not und, "%s: the OrderError handler calls `%s`, which cannot be followed"
+         % (LOOP, short(und[0]) if und else ""))
   ok_shape = len(pushes) == 2 and len(cur) == 1 and len(dep) == 1
   run.ob(R3, fn.qualname, "handler pushes exactly: the interrupted item and the dependency's item",
          "both pushes use append (the end the loop pops from)", ok_shape, fi=fn.fi, node=h)
@@ -710,7 +764,9 @@ def r3_reorder(run, w, sc):
   for s in stmts_in(init.node.body, ast.Assign):
     for t in s.targets:
       store(t, s.value)
-  ok = len(ips) == 4 and stored.get("node") == ips[2] and stored.get("row_id") == ips[3]
+  need(len(ips) == 4 and "node" in stored and "row_id" in stored, "engine.OrderError.__init__: "
+       "the assignments of self.node / self.row_id were not found")
+  ok = stored.get("node") == ips[2] and stored.get("row_id") == ips[3]
   run.ob(R3, init.qualname, "self.node, self.row_id = <2nd>, <3rd> constructor argument",
          "the fields the scheduler reads as the dependency are the cell named by the raiser", ok,
          fi=init.fi)
@@ -751,6 +807,20 @@ def r3_reorder(run, w, sc):
           return out
         a = setter("requiring_node", sc.p_node)
         b = setter("requiring_row_id", sc.row)
+        if not a or not b:
+          # absent: a defect only if nothing in the handler could be recording it out of sight
+          for x in scfg.nodes:
+            if x.id in hb:
+              for c in calls_in(x.exprs):
+                hidden = (isinstance(c.func, ast.Attribute) and text(c.func.value) == e2 and
+                          c.func.attr != "set_requirer") or \
+                    any(isinstance(y, ast.Name) and y.id == e2
+                        for y in list(c.args) + [k.value for k in c.keywords])
+                need(not hidden, "%s: the OrderError handler hands the error to `%s`; whether the "
+                     "requiring cell is recorded cannot be followed" % (STEP, short(c)))
+          und = undissolved(w, st, scfg, within=hb)
+          need(not und, "%s: the OrderError handler calls `%s`, which cannot be followed"
+               % (STEP, short(und[0]) if und else ""))
         for r in rs:
           ok = bool(a) and bool(b) and not _reach_avoiding(scfg, hnn, r, a) and \
               not _reach_avoiding(scfg, hnn, r, b)
@@ -780,20 +850,33 @@ def _key_function(fn, ex, key):
   consisting of one return."""
   if isinstance(key, ast.Lambda) and len(key.args.args) == 1:
     return key.args.args[0].arg, key.body
+  def straight_line(s, pidx):
+    """a def made of plain assignments followed by one return: (parameter, returned expression)"""
+    if len(s.args.args) != pidx + 1:
+      return None
+    body = [b for b in s.body if not (isinstance(b, ast.Expr) and
+                                     isinstance(b.value, ast.Constant))]
+    if body and isinstance(body[-1], ast.Return) and body[-1].value is not None and \
+        all(isinstance(b, ast.Assign) for b in body[:-1]):
+      from ._h_A import Expander
+      return s.args.args[pidx].arg, Expander(s).expand(body[-1].value)
+    return None
+  if isinstance(key, ast.Attribute) and isinstance(key.value, ast.Name) and key.value.id == "self" \
+      and fn.fi.cls is not None:
+    m = fn.world.repo.find_method(fn.fi.cls, key.attr)     # lambda turned into a method
+    return straight_line(m.node, 1) if m is not None else None
   if isinstance(key, ast.Name):
     v = ex.value(key.id)
     if v is not None:
       return _key_function(fn, ex, v)
-    for s in ast.walk(fn.node):
-      if isinstance(s, ast.FunctionDef) and s.name == key.id and s is not fn.node and \
-          len(s.args.args) == 1:
-        body = [b for b in s.body if not (isinstance(b, ast.Expr) and
-                                         isinstance(b.value, ast.Constant))]
-        # straight-line: plain assignments of locals, then one return
-        if body and isinstance(body[-1], ast.Return) and body[-1].value is not None and \
-            all(isinstance(b, ast.Assign) for b in body[:-1]):
-          from ._h_A import Expander
-          return s.args.args[0].arg, Expander(s).expand(body[-1].value)
+    cands = [s for s in ast.walk(fn.node)
+             if isinstance(s, ast.FunctionDef) and s.name == key.id and s is not fn.node]
+    if not cands and key.id in fn.fi.module.functions:
+      cands = [fn.fi.module.functions[key.id].node]       # closure turned into a module function
+    for s in cands:
+      r = straight_line(s, 0)
+      if r is not None:
+        return r
   return None
 
 
@@ -896,7 +979,8 @@ def r4_lookups_first(run, w):
       srt_in = strip_wrappers(cfg.nodes[next(iter(rd))].stmt.value, names=("list",))
   run.ob(R4, fn.qualname, "sorted(<the nodes handed in>, ...)",
          "every node handed in is scheduled (no filtering)",
-         srt_in is not None and ex.norm(srt_in) == p, fi=fn.fi, node=s, nontrivial=False)
+         srt_in is not None and same_or_opaque(w, fn, srt_in, p, "what is sorted"), fi=fn.fi,
+         node=s, nontrivial=False)
   # both producers of the initial order go through this function
   ulf = w.repo.func(LOOP)
   for q in ("engine.Engine._bring_all_up_to_date", LOOP):
@@ -908,6 +992,11 @@ def r4_lookups_first(run, w):
       if nm == "self._update_loop":
         a = call_arg(c, ulf, ulf.params()[1])
         vs = values_at(f2, cfg2, du2, n.id, a) if a is not None else []
+        need(vs and not any(isinstance(v, ast.Name) or
+                            [x for x in opaque_parts(w, f2.fi, v, known=("_make_sorted_work_items",))
+                             if isinstance(x, ast.Call)] for v in vs),
+             "%s: cannot follow where the work items handed to _update_loop come from (`%s`)"
+             % (q, short(a) if a is not None else "?"))
         ok = bool(vs) and all(isinstance(v, ast.Call) and
                               endswith(dotted(v.func), "self._make_sorted_work_items") for v in vs)
         run.ob(R4, q, "self._update_loop(self._make_sorted_work_items(...))", "the "
@@ -918,6 +1007,10 @@ def r4_lookups_first(run, w):
                 if any(text(t) == f2.fi.params()[1] for t in x.targets)]
       for x in refill:
         v = ex2.expand(x.value)
+        need(not isinstance(v, ast.Name) and
+             not [x for x in opaque_parts(w, f2.fi, v, known=("_make_sorted_work_items",))
+                  if isinstance(x, ast.Call)],
+             "%s: cannot follow what the work list is refilled with (`%s`)" % (q, short(v)))
         ok = isinstance(v, ast.Call) and endswith(dotted(v.func), "self._make_sorted_work_items")
         run.ob(R4, q, "work_items = self._make_sorted_work_items(...)", "when the stack runs dry it "
                "is refilled in the lookups-first order", ok, fi=f2.fi, node=x)
